@@ -14,6 +14,9 @@ use std::time::{Duration, Instant};
 pub enum Fault {
     /// Script exits with this status.
     Exit(u8),
+    /// The script's last statement fails without `set -e` aborting it: 0 = a failing and-list
+    /// (`test -e /nonexistent && ...`), 1 = a negated command (`! true`). The shell's status is 1.
+    TailFails(u8),
     /// Script is killed by a signal.
     SelfKill,
     /// zinoma aborts at a named point of the build cycle.
@@ -60,6 +63,7 @@ pub fn fault_strategy() -> impl Strategy<Value = Fault> {
     prop_oneof![
         2 => prop::sample::select(vec![1u8, 2, 126, 127, 130, 137, 255]).prop_map(Fault::Exit),
         1 => Just(Fault::SelfKill),
+        1 => (0u8..2).prop_map(Fault::TailFails),
         3 => prop::sample::select(vec!["decided", "deleted", "script_done", "state_computed"]).prop_map(|s| Fault::Crash(s.to_string())),
         1 => Just(Fault::KillParent),
         4 => any::<u16>().prop_map(Fault::PartialWrite),
@@ -87,7 +91,7 @@ case \"$mode\" in\n\
   hang) touch \"$ZV_ROOT/started\"; exec sleep 100000;;\n\
 esac\n\
 {copy}\n\
-echo \"F {id} $$\" >> \"$ZV_TRACE\"",
+if [ \"$mode\" = tail:0 ]; then test -e /nonexistent/zv-never && echo never; elif [ \"$mode\" = tail:1 ]; then ! true; else echo \"F {id} $$\" >> \"$ZV_TRACE\"; fi",
         id = id,
         copy = copy
     )
@@ -334,6 +338,10 @@ pub fn eval_c05(case: &C05Case) -> CaseResult {
                 Fault::Exit(e) => {
                     sb.write(&mode_file, format!("exit:{}", e).as_bytes());
                     format!("exit:{}", e)
+                }
+                Fault::TailFails(k) => {
+                    sb.write(&mode_file, format!("tail:{}", k % 2).as_bytes());
+                    format!("tail-status:{}", if k % 2 == 0 { "and-list" } else { "negation" })
                 }
                 Fault::SelfKill => {
                     sb.write(&mode_file, b"selfkill");
